@@ -214,6 +214,31 @@ func TestConcurrent(t *testing.T) {
 				res.Sample = gen.PPModel(m)
 			}
 		}
+		if which == "" || which == "c06" || which == "c13" {
+			// F2: ONE builder value shared by all goroutines, each building its own model (and two of them the same)
+			shared := graph.NewWeightedAuthorizationModelGraphBuilder()
+			var ms []*openfgav1.AuthorizationModel
+			var wants []string
+			for i := 0; i < 8; i++ {
+				m := gen.Model(r, gen.ModelOpt{Hazards: i%4 == 0})
+				ms = append(ms, m)
+				wants = append(wants, buildKey(proto.Clone(m).(*openfgav1.AuthorizationModel)))
+			}
+			res.OverlappingPairs += barrierRun(16, func(w int) {
+				g, err := shared.Build(ms[w%8])
+				got := "ERR"
+				if err == nil {
+					got = ref.CanonWeighted(g)
+				} else if !(isErr(err, graph.ErrModelCycle) || isErr(err, graph.ErrTupleCycle) || isErr(err, graph.ErrInvalidModel)) {
+					got = "ERR:" + err.Error()
+				}
+				atomic.AddInt64(&calls, 1)
+				if got != wants[w%8] {
+					report(mismatch{Mix: "shared-builder", Detail: "a build through a builder value shared between goroutines differs from the sequential build", Model: mj(ms[w%8]), Expected: wants[w%8], Observed: got})
+				}
+			})
+			res.PerMix["shared-builder"]++
+		}
 		if which == "c06" {
 			continue
 		}
